@@ -692,4 +692,57 @@ pub broadcast proof fn lemma_wrapping_add_u32(a: u32, b: u32)
 {
 }
 
+// ================================================================================================
+// Output lengths (for callers)
+// ================================================================================================
+pub proof fn lemma_nat_to_le_len(v: nat, len: nat)
+    ensures
+        nat_to_le(v, len).len() == len,
+    decreases len,
+{
+    if len > 0 {
+        lemma_nat_to_le_len(v / 256, (len - 1) as nat);
+    }
+}
+
+pub proof fn lemma_hsalsa20_len(key: Seq<u8>, input: Seq<u8>, consts: Option<(u32, u32, u32, u32)>)
+    ensures
+        hsalsa20_rfc(key, input, consts).len() == 32,
+{
+}
+
+pub proof fn lemma_chacha_rounds_len(s: Seq<u32>, n: nat)
+    requires
+        s.len() == 16,
+    ensures
+        chacha_rounds(s, n).len() == 16,
+    decreases n,
+{
+    if n > 0 {
+        lemma_chacha_rounds_len(s, (n - 1) as nat);
+    }
+}
+
+pub proof fn lemma_hchacha20_len(key: Seq<u8>, input: Seq<u8>, consts: Option<(u32, u32, u32, u32)>)
+    requires
+        key.len() == 32,
+        input.len() == 16,
+    ensures
+        hchacha20_rfc(key, input, consts).len() == 32,
+{
+    lemma_chacha_rounds_len(hchacha20_init(key, input, consts), 10);
+}
+
+pub proof fn lemma_siphash24_len(key: Seq<u8>, msg: Seq<u8>)
+    ensures
+        siphash24_rfc(key, msg).len() == 8,
+{
+    let v = sip_init(key);
+    let v = sip_absorb(v, msg, msg.len() / 8);
+    let v = sip_compress(v, le64(sip_last_block(msg)));
+    let v = v.update(2, v[2] ^ 0xffu64);
+    let v = siprounds(v, 4);
+    lemma_nat_to_le_len((v[0] ^ v[1] ^ v[2] ^ v[3]) as nat, 8);
+}
+
 } // verus!
